@@ -149,7 +149,7 @@ func checkC19(c *Ctx) {
 	// the deepest inputs of this check need a few GiB in the worker: a wider memory budget than the default
 	c.Pool.Env = append(c.Pool.Env, "ZNWORKER_RSS_LIMIT_MB=10240")
 	c.Pool.LongRetry = true
-	c.rule = "(1) generate: random nested dictionaries (texts over quotes, backslashes, control characters, astral code points; doubles incl. -0, subnormals, 2^53+1, 1.8e308; booleans, 空, empty lists/dicts) enter as input variables; the text of 生成JSON is parsed by Python json.loads (strict constants) and compared structurally; non-finite numbers must give a catchable exception, and so must objects / types / methods / exceptions anywhere in the structure (never null); (2) parse: documents produced by Python json.dumps (random separators, indent, ensure_ascii) must parse to the generator's value with keys in document order; (3) in-language round trip (解析JSON：（生成JSON：D）) 为 D; (6) values nested around the 10000-level bound (a parsed document of depth 9990 wrapped in up to 40 further levels by the program): generation then parsing gives the value back, or generation refuses; (7) documents of 9997 … 10002 nested lists / dictionaries with a scalar, a text, null or nothing innermost: what 解析JSON accepts, 生成JSON writes and 解析JSON reads back as the same value; (5) documents nested 100 … 200000 deep (thorough: up to 6 million) as objects / arrays / both / unclosed: parsed or refused with an exception, never a dead process; (4) every single-character deletion / replacement of small documents: Python rejects => Zn raises an exception a 拦截 catches, Python accepts => same value. distinct_nontrivial = distinct (family, value shape signature, outcome)"
+	c.rule = "(1) generate: random nested dictionaries (texts over quotes, backslashes, control characters, astral code points; doubles incl. -0, subnormals, 2^53+1, 1.8e308; booleans, 空, empty lists/dicts) enter as input variables; the text of 生成JSON is parsed by Python json.loads (strict constants) and compared structurally; non-finite numbers must give a catchable exception, and so must objects / types / methods / exceptions anywhere in the structure (never null); (2) parse: documents produced by Python json.dumps (random separators, indent, ensure_ascii) must parse to the generator's value with keys in document order; (3) in-language round trip (解析JSON：（生成JSON：D）) 为 D; (6) values nested around the 10000-level bound (a parsed document of depth 9990 wrapped in up to 40 further levels by the program): generation then parsing gives the value back, or generation refuses; (7) documents of 9997 … 10002 nested lists / dictionaries with a scalar, a text, null or nothing innermost: what 解析JSON accepts, 生成JSON writes and 解析JSON reads back as the same value; (5) documents nested 100 … 200000 deep (thorough: up to 6 million) as objects / arrays / both / unclosed: parsed or refused with an exception, never a dead process; (4) every single-character deletion / replacement of small documents, and 20 kinds of blank space (13 of them not JSON white space) before / after / inside them: Python rejects => Zn raises an exception a 拦截 catches, Python accepts => same value. distinct_nontrivial = distinct (family, value shape signature, outcome)"
 	c.assumptions = []string{"Python 3 json module is the reference parser/encoder", "documents whose Python value contains inf (overflowing literals), lone surrogates, integers beyond 2^53, or whose top level is not an object are not judged"}
 	py, err := startPyOracle(c.Root)
 	if err != nil {
@@ -551,6 +551,13 @@ func checkC19(c *Ctx) {
 			}
 			ins := append(append(append([]byte{}, b[:pos]...), repl[rng.Intn(len(repl))]), b[pos:]...)
 			cdocs = append(cdocs, ins)
+		}
+	}
+	// blank space that is not JSON white space (and real JSON white space, as control) before, after
+	// and inside small documents: RFC 8259 allows only space, tab, LF and CR between tokens
+	for _, s := range small[:3] {
+		for _, ws := range []string{"\v", "\f", "\u0085", "\u00a0", "\u1680", "\u2000", "\u200a", "\u2028", "\u2029", "\u202f", "\u205f", "\u3000", "\ufeff", "\u200b", "\x00", " ", "\t", "\n", "\r", "\r\n \t"} {
+			cdocs = append(cdocs, []byte(ws+s), []byte(s+ws), []byte(ws+s+ws), []byte(" "+ws+s), []byte(s+ws+"\n"), []byte(strings.Replace(s, ":", ws+":", 1)), []byte(strings.Replace(s, ",", ","+ws, 1)))
 		}
 	}
 	pres := make([]pyLoadRes, 0, len(cdocs))
